@@ -29,6 +29,7 @@ use std::sync::Barrier;
 struct Slot {
   id: KeyId,
   public: Jwk,
+  bls: bool,
 }
 
 struct Live {
@@ -139,7 +140,8 @@ impl Live {
         Err(_) => 0,
       })
       .collect();
-    json!({"live": live, "dead": dead, "kidmap": kidmap})
+    let bls: Vec<usize> = self.slots.iter().enumerate().filter(|(_, sl)| sl.bls).map(|(k, _)| k + 1).collect();
+    json!({"live": live, "dead": dead, "kidmap": kidmap, "bls": bls})
   }
 
   fn apply(&mut self, op: &Value) -> Result<Value, String> {
@@ -171,10 +173,33 @@ impl Live {
           if j.alg() != Some(s(&op["alg"])) {
             return Err(format!("alg {:?} is not the requested one", j.alg()));
           }
-          self.slots.push(Slot { id: out.key_id, public: out.jwk });
+          self.slots.push(Slot { id: out.key_id, public: out.jwk, bls: false });
           Ok(json!({"ok": true, "slot": self.slots.len()}))
         }
       },
+      "generate_bbs" => {
+        use identity_storage::JwkStorageBbsPlusExt;
+        use jsonprooftoken::jpa::algs::ProofAlgorithm;
+        let kt = key_type(s(&op["kt"]));
+        let alg = match s(&op["alg"]) {
+          "BLS12381_SHA256" => ProofAlgorithm::BLS12381_SHA256,
+          "BLS12381_SHAKE256" => ProofAlgorithm::BLS12381_SHAKE256,
+          _ => ProofAlgorithm::SU_ES256,
+        };
+        match block_on(self.store.generate_bbs(kt, alg)) {
+          Err(_) => Ok(json!({"ok": false})),
+          Ok(out) => {
+            if self.slots.iter().any(|sl| sl.id == out.key_id) {
+              return Err("generate_bbs returned a key id that was handed out before".into());
+            }
+            if !out.jwk.is_public() || serde_json::to_string(&out.jwk).unwrap_or_default().contains("\"d\"") {
+              return Err("generate_bbs returned private key material".into());
+            }
+            self.slots.push(Slot { id: out.key_id, public: out.jwk, bls: true });
+            Ok(json!({"ok": true, "slot": self.slots.len()}))
+          }
+        }
+      }
       "insert" => {
         let variants = jwk_variants(s(&op["jwk"]));
         let many = variants.len() > 1;
@@ -187,7 +212,7 @@ impl Live {
                 return Err("insert returned a key id that was handed out before".into());
               }
               let public = jwk.to_public().ok_or("no public part")?;
-              self.slots.push(Slot { id, public });
+              self.slots.push(Slot { id, public, bls: false });
               outcome = json!({"ok": true, "slot": self.slots.len()});
               if many {
                 outcome["accepted_alg"] = json!(jwk.alg());
@@ -203,18 +228,20 @@ impl Live {
         let slot = i(&op["slot"]);
         let id = self.key_id(slot);
         let own = if slot == 0 { None } else { Some(self.slots[slot as usize - 1].public.clone()) };
+        let is_bls = slot != 0 && self.slots[slot as usize - 1].bls;
         // another LIVE key's public JWK
         let other = self
           .slots
           .iter()
           .enumerate()
-          .find(|(k, sl)| (*k as i64 + 1) != slot && block_on(self.store.exists(&sl.id)).unwrap_or(false))
+          .find(|(k, sl)| (*k as i64 + 1) != slot && !sl.bls && block_on(self.store.exists(&sl.id)).unwrap_or(false))
           .map(|(_, sl)| sl.public.clone());
         let public = match s(&op["pub"]) {
           "own" => own.clone().or(other.clone()).unwrap_or_else(|| jwk_of_class("public_only")),
           "other" => other.clone().ok_or("no other live key")?,
           "no_alg" => {
-            let mut j = own.clone().unwrap_or_else(|| jwk_of_class("public_only"));
+            // for a BLS key id the caller presents an Ed25519 look-alike
+            let mut j = own.clone().filter(|_| !is_bls).unwrap_or_else(|| jwk_of_class("public_only"));
             let p = j.try_okp_params().map_err(|e| e.to_string())?.clone();
             j = Jwk::from_params(p);
             j
@@ -222,7 +249,7 @@ impl Live {
           "wrong_kty" => jwk_of_class("wrong_kty").to_public().unwrap(),
           c @ ("wrong_alg" | "unknown_alg" | "wrong_crv") => {
             // the key's own public JWK with only the alg / crv member replaced; every realisation must be refused
-            let base = own.clone().unwrap_or_else(|| jwk_of_class("public_only"));
+            let base = own.clone().filter(|_| !is_bls).unwrap_or_else(|| jwk_of_class("public_only"));
             let data = b"signing input of the harness";
             for v in jwk_variants(c) {
               let mut j = base.clone();
@@ -261,7 +288,7 @@ impl Live {
               return Err("signature does not verify under the key's own public JWK".into());
             }
             for (k, sl) in self.slots.iter().enumerate() {
-              if (k as i64 + 1) != slot && v.verify(input(&sig), &sl.public).is_ok() {
+              if (k as i64 + 1) != slot && !sl.bls && v.verify(input(&sig), &sl.public).is_ok() {
                 return Err(format!("signature of slot {slot} verifies under the key of slot {}", k + 1));
               }
             }
@@ -291,7 +318,15 @@ fn build(pre: &Value) -> Result<Live, String> {
   let live: Vec<i64> = arr(&pre["live"]).iter().map(i).collect();
   let dead: Vec<i64> = arr(&pre["dead"]).iter().map(i).collect();
   let n = live.len() + dead.len();
+  let bls: Vec<i64> = pre.get("bls").map(|b| arr(b).iter().map(i).collect()).unwrap_or_default();
   for k in 1..=n as i64 {
+    if bls.contains(&k) {
+      let r = l.apply(&json!({"name": "generate_bbs", "kt": "BLS12381G2", "alg": "BLS12381_SHA256"}))?;
+      if r["ok"] != json!(true) {
+        return Err("could not create a BLS key for the pre-state".into());
+      }
+      continue;
+    }
     // alternate the two ways a key can enter the store
     let op = if k % 2 == 1 { json!({"name": "generate", "kt": "Ed25519", "alg": "EdDSA"}) } else { json!({"name": "insert", "jwk": "private_alg"}) };
     let mut r = l.apply(&op)?;
@@ -337,7 +372,7 @@ fn replay_chunk(cases: &[Value], rep: &mut Report) {
         if res != case["res"] || post != case["post"] {
           // the contract states what a store may accept; refusing a generate/insert/sign the reference accepts, leaving
           // the store unchanged, is a deviation from the reference, not a breach of the contract
-          let refused_only = matches!(name.as_str(), "generate" | "insert" | "sign")
+          let refused_only = matches!(name.as_str(), "generate" | "insert" | "sign" | "generate_bbs")
             && case["res"]["ok"] == json!(true) && res["ok"] == json!(false) && post == case["pre"];
           let key = if refused_only { format!("key_store/~{name}_refused") } else { format!("key_store/{name}") };
           rep.mismatch(&key, case, json!({"res": case["res"], "post": case["post"]}), json!({"res": res, "post": post}), "");
@@ -367,7 +402,12 @@ pub fn record_seq(seed: u64, n: u64, out: &mut TraceOut) {
       let nslots = l.slots.len() as i64;
       let slot = if nslots == 0 || r.gen_bool(0.1) { 0 } else { r.gen_range(1..=nslots) };
       let op = match r.gen_range(0..100) {
-        0..=13 => {
+        0..=2 => {
+          let kt = ["BLS12381G2", "BLS12381G2", "Ed25519"][r.gen_range(0..3)];
+          let alg = ["BLS12381_SHA256", "BLS12381_SHAKE256", "SU_ES256"][r.gen_range(0..3)];
+          json!({"name": "generate_bbs", "kt": kt, "alg": alg})
+        }
+        3..=13 => {
           let kt = ["Ed25519", "Ed25519", "BLS12381G2", "bogus"][r.gen_range(0..4)];
           let alg = ["EdDSA", "EdDSA", "ES256", "bogus"][r.gen_range(0..4)];
           json!({"name": "generate", "kt": kt, "alg": alg})
@@ -377,7 +417,7 @@ pub fn record_seq(seed: u64, n: u64, out: &mut TraceOut) {
           json!({"name": "insert", "jwk": class})
         }
         25..=49 => {
-          let live_other = l.slots.iter().enumerate().any(|(k, sl)| (k as i64 + 1) != slot && block_on(l.store.exists(&sl.id)).unwrap_or(false));
+          let live_other = l.slots.iter().enumerate().any(|(k, sl)| (k as i64 + 1) != slot && !sl.bls && block_on(l.store.exists(&sl.id)).unwrap_or(false));
           let pubs: &[&str] = if live_other { &["own", "other", "no_alg", "wrong_alg", "unknown_alg", "wrong_crv", "wrong_kty"] } else { &["own", "no_alg", "wrong_alg", "unknown_alg", "wrong_crv", "wrong_kty"] };
           json!({"name": "sign", "slot": slot, "pub": pubs[r.gen_range(0..pubs.len())]})
         }
@@ -449,6 +489,10 @@ pub fn record_race(seed: u64, n: u64, out: &mut TraceOut) {
             },
           };
           let c = clock.fetch_add(1, Ordering::SeqCst);
+          // the call event is completed with the result it turned out to have (same information as the return event)
+          if let Some(last) = evs.last_mut() {
+            last.1["exp"] = res.clone();
+          }
           evs.push((c, json!({"ev": "ret", "t": t + 1, "res": res})));
         }
         evs
